@@ -48,8 +48,11 @@ Pick(S) == IF Sim THEN {RandomElement(S)} ELSE S
 \* power-of-two scale of the whole history (a micrometre, a unit, a few kilometres): portions do not depend on the unit
 RootScale(rt) == << 0, -20, 12, -3 >>[((Len(rt.pts) + (IF rt.fc THEN 1 ELSE 0) + rt.tolU) % 4) + 1]
 
+\* ... and its position: some histories live far from the origin (the harness translates the root and translates every reported point back)
+RootOff(rt) == << <<0, 0, 0>>, <<65536, -100000, 0>>, <<-4096, 1000, 0>> >>[((Len(rt.pts) + 2 * rt.tolU + (IF rt.fc THEN 0 ELSE 1)) % 3) + 1]
+
 Init == /\ root \in Roots /\ d = WholeRoot(Built(root.pts, 0, root.fc, 2)) /\ phase = "run"
-        /\ hist = <<[m |-> "curve", op |-> "root", pts |-> root.pts, fc |-> root.fc, sc |-> RootScale(root), tolU |-> root.tolU,
+        /\ hist = <<[m |-> "curve", op |-> "root", pts |-> root.pts, fc |-> root.fc, sc |-> RootScale(root), tolU |-> root.tolU, off |-> RootOff(root),
                    nz |-> (Len(root.pts) % 2)]>>        \* nz = 1: every zero arc length of the history is handed over as -0.0
 
 \* a derived curve that is closed only because an open root touches itself is left out of the histories
